@@ -111,8 +111,9 @@ func sortedNames(m map[string]kvdb.Store) []string {
 	return res
 }
 
-// runHistory generates and executes one history; it returns nil if the harness itself met an
-// unexpected error (reported through t.Fatalf).
+// runHistory generates and executes one history (unexpected errors of the stack while the
+// history is executed are reported through t.Fatalf). Trace lines carry the log position reached
+// after the step.
 func runHistory(t *rapid.T) *history {
 	h := &history{
 		variant: rapid.SampledFrom([]string{variantPool, variantFlagged}).Draw(t, "variant"),
